@@ -10,6 +10,7 @@ pub mod c09;
 pub mod c10;
 pub mod c12;
 pub mod c13;
+pub mod c14;
 pub mod c15;
 pub mod c16;
 pub mod c17;
@@ -33,6 +34,7 @@ pub fn table() -> Vec<(&'static str, PropFn)> {
         ("C10", c10::run as PropFn),
         ("C12", c12::run as PropFn),
         ("C13", c13::run as PropFn),
+        ("C14", c14::run as PropFn),
         ("C15", c15::run as PropFn),
         ("C16", c16::run as PropFn),
         ("C17", c17::run as PropFn),
